@@ -312,65 +312,5 @@ def run(tier, seed):
 
 
 def job_validate(i, seed):
-    """translator validation: one random concrete (opcode, state) per row through the executor and the native twin"""
     C, Rf = envs()
-    ck = core.Check('C01', 'translation_validation', 'quick', seed)
-    rnd = random.Random(seed * 1000 + i)
-    row = C.rows[i]
-    ex, st0, ctx = C.base()
-    R = C.R()
-    for attempt in range(40):
-        oc = (rnd.randrange(65536) & ~row['mask'] & 0xFFFF) | row['expected']
-        if all((oc & m) != u for m, u in row['rejectors']):
-            break
-    ec = rnd.randrange(65536)
-    conc = {}
-    s = z3.Solver()
-    s.add(*C.inv())
-    # random but Inv-respecting state: ask the solver for a model near random values
-    for f, t in R.items():
-        s.push()
-        s.add(t == rnd.randrange(1 << min(t.size(), 16)))
-        if s.check() != z3.sat:
-            s.pop()
-    assert s.check() == z3.sat
-    m = s.model()
-    conc = {f: m.eval(t, model_completion=True).as_long() for f, t in R.items()}
-    A = [t == conc[f] for f, t in R.items()]
-    memv = rnd.randrange(65536)
-    dm0 = C.pre_dmem()
-    try:
-        r = C.run_row(i, oc, ec, A)
-    except (Abort, UnwindBound) as x:
-        ck.notes.append('validation row %d skipped: %r' % (i, x))
-        return ck.export()
-    if r['st'] is None:
-        return ck.export()
-    sub = [(t, z3.BitVecVal(conc[f], t.size())) for f, t in R.items()]
-    K = z3.K(z3.BitVecSort(16), z3.BitVecVal(memv, 16))
-    sub.append((dm0, K))
-    post = C.post_regs(r['st'])
-    got = {}
-    for f, t in post.items():
-        v = z3.simplify(z3.substitute(t, *sub))
-        got[f] = v.as_long() if z3.is_bv_value(v) else None
-    tw = _twins.setdefault('cur', interp.Twin(C))
-    nat = tw.run_row(i, oc, ec, conc, [(a, memv) for a in range(0, 0x10000, 1)] if False else [], )
-    # native memory is zero-filled: use memv = 0 semantics by re-substituting
-    K0 = z3.K(z3.BitVecSort(16), z3.BitVecVal(0, 16))
-    sub[-1] = (dm0, K0)
-    got = {}
-    for f, t in post.items():
-        v = z3.simplify(z3.substitute(t, *sub))
-        got[f] = v.as_long() if z3.is_bv_value(v) else None
-    if nat[0] != 'ok':
-        ck.notes.append('validation row %d: native %r' % (i, nat[0]))
-        return ck.export()
-    if nat[1]['unimpl']:
-        return ck.export()
-    bad = [f for f in got if got[f] is not None and got[f] != nat[1]['regs'].get(f)]
-    if bad:
-        ck.engine_errors.append('translator validation mismatch row %d %s opcode %#06x: fields %s exec=%r native=%r' % (i, row['name'], oc, bad[:5], [got[f] for f in bad[:5]], [nat[1]['regs'].get(f) for f in bad[:5]]))
-    else:
-        ck.validated += 1
-    return ck.export()
+    return interp.validate_row(C, i, seed, 'C01', 'translation_validation')
